@@ -14,6 +14,7 @@ ROLES = ('sampling_rate', 'sample_width', 'channels')
 
 def check(repo, rep):
     cx = Ctx(repo)
+    rep.cx = cx
     W = lambda n: cx.where('core', n)
     cls = cx.cls('core', 'AudioRegion')
     sdata = P.attr(SELF, 'data')
@@ -216,7 +217,28 @@ def check(repo, rep):
     dfn = cx.fn('core', 'AudioRegion.__truediv__')
     dn = ('p', dfn.args.args[1].arg)
     tguards = [l for l in dl if l.outcome == 'raise']
-    rep.ob('dividing by a non-int or non-positive n raises TypeError', len(tguards) >= 2 and all(exc_name(l) == 'TypeError' for l in tguards), W(dfn), 'AudioRegion.__truediv__:guards', 'raising paths: %d' % len(tguards))
+    rep.ob('dividing by a non-int or non-positive n raises TypeError', len(tguards) >= 2 and all(exc_name(l) == 'TypeError' for l in tguards), W(dfn), 'AudioRegion.__truediv__:guards', 'raising paths: %d' % len(tguards), loop_rule=True)
+    # every positive int divisor is accepted: the conditions of the raising paths that mention n are evaluated for n = 1, 2, 7
+    from ..semantic import evaluator, Undecided
+    from ..termeval import NotEvaluable
+    try:
+        for nv in (1, 2, 7):
+            for l in tguards:
+                rel = [(ct, tr) for ct, tr, _ in l.conds if any(x == dn for x in walk(ct))]
+                if len(rel) != len(l.conds):
+                    continue          # raises for a reason that is not only about n
+                takes = True
+                for ct, tr in rel:
+                    ev_ = evaluator({dn: nv})
+                    got = ev_.ev(ct)
+                    if ev_.leaves:
+                        raise Undecided('condition %s depends on more than n' % show(ct)[:60])
+                    if bool(got) != tr:
+                        takes = False
+                rep.ob('dividing by a positive int is accepted (n = %d)' % nv, not takes, W(l.node) if l.node is not None else W(dfn), 'AudioRegion.__truediv__:rejects-%d' % nv,
+                       'region / %d raises %s under %s' % (nv, exc_name(l), [(show(c)[:40], t) for c, t in rel]))
+    except (Undecided, NotEvaluable) as exc:
+        rep.unknown('AudioRegion.__truediv__: guard on n not evaluable (%s)' % exc)
     nloop = 0
     for l in dl:
         ends = [n for n in l.notes if isinstance(n, tuple) and n[0] == 'loop-end-env']
@@ -226,7 +248,7 @@ def check(repo, rep):
         envend = ends[-1][2]
         apps = [e for e in l.effects if e[0] == 'call' and e[1][0] == 'call' and e[1][1][0] == 'attr' and e[1][1][2] == 'append']
         pieces = [e for e in apps if e[1][2] and e[1][2][0][0] == 'sub' and e[1][2][0][1] == ('self',) and e[1][2][0][2][0] == 'slice']
-        rep.ob('each piece is a sample slice self[onset:offset] of the dividend', len(pieces) == 1, W(dfn), 'AudioRegion.__truediv__:piece', 'appends: %s' % [show(e[1])[:80] for e in apps])
+        rep.ob('each piece is a sample slice self[onset:offset] of the dividend', len(pieces) == 1, W(dfn), 'AudioRegion.__truediv__:piece', 'appends: %s' % [show(e[1])[:80] for e in apps], loop_rule=True)
         if len(pieces) != 1:
             continue
         sl_ = pieces[0][1][2][0][2]
@@ -236,7 +258,7 @@ def check(repo, rep):
         if on is None or on[0] != 'loopvar' or len(on) != 4:
             rep.unknown('AudioRegion.__truediv__: onset of the pieces (%s) is not a loop variable with an initial value' % (show(on)[:40] if on else None))
         else:
-            rep.ob('the first piece starts at sample 0', on[3] == ('c', 0), W(pieces[0][3]), 'AudioRegion.__truediv__:first-onset', 'onset initial value %s' % show(on[3]))
+            rep.ob('the first piece starts at sample 0', on[3] == ('c', 0), W(pieces[0][3]), 'AudioRegion.__truediv__:first-onset', 'onset initial value %s' % show(on[3]), loop_rule=True)
         nlen = ('call', ('b', 'len'), (('self',),), ())
         q = P.Pat(lambda t: (t[0] == 'sub' and t[1][0] == 'call' and t[1][1] == ('b', 'divmod') and t[1][2] == (nlen, dn) and t[2] == ('c', 0)) or t == ('bin', '//', nlen, dn), 'len // n')
         bit = P.Pat(lambda t: t in (('c', 0), ('c', 1)) or (t[0] == 'ite' and {t[2], t[3]} <= {('c', 0), ('c', 1)}) or (t[0] == 'call' and t[1] == ('b', 'int') and len(t[2]) == 1 and t[2][0][0] == 'cmp'), '0|1')
@@ -247,7 +269,7 @@ def check(repo, rep):
             okq = P.summ(onp, q)(off) or P.summ(onp, q, bit)(off)
             uses_q = any(q(x) for x in walk(off))
             if okq or uses_q:
-                rep.ob('piece length is len // n or len // n + 1', okq, W(pieces[0][3]), 'AudioRegion.__truediv__:piece-length', 'offset is %s' % show(off)[:120], sample=dict(op='/', piece='self[%s : %s]' % (show(on)[:30], show(off)[:80])))
+                rep.ob('piece length is len // n or len // n + 1', okq, W(pieces[0][3]), 'AudioRegion.__truediv__:piece-length', 'offset is %s' % show(off)[:120], sample=dict(op='/', piece='self[%s : %s]' % (show(on)[:30], show(off)[:80])), loop_rule=True)
             else:
                 rep.unknown('AudioRegion.__truediv__: piece end %s is not of the form onset + len//n (+1)' % show(off)[:80])
         # the loop stops when the data is used up: min(n, len) pieces, no empty trailing pieces
@@ -258,13 +280,13 @@ def check(repo, rep):
             if isinstance(node, ast.While):
                 g = norm_cmp(t, True)
                 ok = g is not None and ((g[0] == '<' and g[1] == on and g[2] == nlen) or (g[0] == '>' and g[1] == nlen and g[2] == on))
-                rep.ob('division yields min(n, len) pieces: the loop runs while samples remain (onset < len)', ok, W(node), 'AudioRegion.__truediv__:loop-bound', 'loop condition %s' % show(t)[:80])
+                rep.ob('division yields min(n, len) pieces: the loop runs while samples remain (onset < len)', ok, W(node), 'AudioRegion.__truediv__:loop-bound', 'loop condition %s' % show(t)[:80], loop_rule=True)
             else:
                 ok = t[0] == 'call' and t[1] == ('b', 'range') and len(t[2]) == 1 and t[2][0][0] == 'call' and t[2][0][1] == ('b', 'min') and set(t[2][0][2]) == {dn, nlen}
                 plain = t[0] == 'call' and t[1] == ('b', 'range') and t[2] == (dn,)
                 if ok or plain:
                     rep.ob('division yields min(n, len) pieces: the loop is bounded by the number of samples, not only by n', ok, W(node), 'AudioRegion.__truediv__:loop-bound',
-                           'loop over %s: for n > len this produces n pieces with empty trailing regions' % show(t)[:60])
+                           'loop over %s: for n > len this produces n pieces with empty trailing regions' % show(t)[:60], loop_rule=True)
                 else:
                     rep.unknown('AudioRegion.__truediv__: loop %s not understood' % show(t)[:60])
     rep.floor('__truediv__ loop paths', nloop, 1)
